@@ -468,6 +468,23 @@ def cwStep (_st : Unit) (line : String) (t : Tally) : Except String (Unit × Tal
     else if kv "present" != "true" || g "final" != g "want" then
       .error s!"C09: key {g "key"}: a Compute that was inside its remapping function when the loader returned wrote {g "want"}, yet afterwards the cache holds {g "final"} present={kv "present"} — the loaded value {g "loaded"} was installed over the write"
     else .ok ((), t.bump "lockedwrite_rounds")
+  | "siaread" :: rest =>
+    let g := natOf rest
+    let kv (k : String) := (kvOf rest k).getD ""
+    if kv "finished" != "true" then .error s!"C02: a Set racing a SetIfAbsent on the same key never returned"
+    else if kv "inserted" != "false" || g "got" != 1 then .error s!"C01/C02: SetIfAbsent on the present key {g "key"} returned {g "got"} inserted={kv "inserted"}"
+    else if kv "present" != "true" || g "value" != 2 then .error s!"C02: after SetIfAbsent (a read) and a Set of key {g "key"} the cache holds {g "value"} present={kv "present"}, expected 2"
+    else if kv "expoffset" != kv "want" then
+      .error s!"C12: key {g "key"} was read (SetIfAbsent on a present key: ExpireAfterRead = 50 s) and then updated by a Set that keeps the deadline; its expiration time lies {kv "expoffset"} ns after the read, expected {kv "want"} — the deadline computed for the read was stored after the bucket lock had been released and landed on the replaced node"
+    else .ok ((), t.bump "siaread_rounds")
+  | "refreshfail" :: rest =>
+    let g := natOf rest
+    let kv (k : String) := (kvOf rest k).getD ""
+    if kv "delivered" != "true" then .error s!"C11: an explicit Refresh whose reload failed delivered no result"
+    else if kv "present" != "true" then .error s!"C11: a failed reload removed key {g "key"}"
+    else if g "refreshmin" < 50 then
+      .error s!"C12/C11: SetRefreshableAfter(1h) on key {g "key"} was made while a failed reload's calculator answered 'keep the refresh time'; afterwards the entry is refreshable in {g "refreshmin"} min — the override was overwritten with the value read before it"
+    else .ok ((), t.bump "refreshfail_rounds")
   | "hotget" :: rest =>
     let g := natOf rest
     let kv (k : String) := (kvOf rest k).getD ""
